@@ -500,7 +500,7 @@ func twice(tmpl string) string {
 	return strings.ReplaceAll(tmpl, "$", "d") + " " + strings.ReplaceAll(tmpl, "$", "k")
 }
 
-var cyclics = []cyclic{
+var cyclicsBase = []cyclic{
 	{"vector-in-itself", twice(`(set '$ (vector 1)) (append! $ $)`)},
 	{"map-in-itself", twice(`(set '$ (sorted-map)) (assoc! $ "a" $)`)},
 	{"map-in-itself-2-keys", twice(`(set '$ (sorted-map)) (assoc! $ "a" $) (assoc! $ "b" $)`)},
@@ -522,7 +522,7 @@ var cyclics = []cyclic{
 
 type walkValue struct{ name, expr string }
 
-var walkValues = []walkValue{
+var walkValuesBase = []walkValue{
 	// a vector holding itself k times
 	{"vector-x1", `(let ([v (vector 1)]) (append! v v) v)`},
 	{"vector-x2", `(let ([v (vector 1)]) (append! v v) (append! v v) v)`},
@@ -656,4 +656,14 @@ var walkContexts = []walkContext{
 	{"sort", `(stable-sort (lambda (a b) false) (list d d))`},
 	{"testing-assert", `(testing:assert-equal d d)`},
 	{"help", `(help:help d)`},
+	// --- further consumers of a whole value
+	{"sort-comparing-with-equal", `(stable-sort (lambda (a b) (equal? a b)) (list d $V d))`},
+	{"insert-sorted", `(insert-sorted 'list (list d) (lambda (a b) (equal? a b)) d)`},
+	{"json-bytes-and-message", `(list (ignore-errors (json:dump-bytes d)) (ignore-errors (json:dump-message d)))`},
+	{"elpspath-set-del-nil", `(list (ignore-errors (elpspath:?set d 0 1)) (ignore-errors (elpspath:?del d 0)) (ignore-errors (elpspath:?nil d 0 0)))`},
+	{"schema-validator", `(s:validate (s:make-validator "x" "any" (s:in d)) d)`},
+	{"error-message-embedding-value", `(list (ignore-errors (to-int d)) (ignore-errors (+ d 1)) (ignore-errors (string:join d ",")) (ignore-errors (aref d 99)))`},
+	{"error-message-returned", `(to-int d)`},
+	{"map-key-lookup", `(list (ignore-errors (get (sorted-map "a" 1) d)) (ignore-errors (key? (sorted-map "a" 1) d)) (ignore-errors (assoc (sorted-map) d 1)))`},
+	{"all-any-select", `(list (all? identity (list d)) (any? identity (list d)) (select 'list identity (list d d)))`},
 }
